@@ -4,6 +4,7 @@ import (
 	"encoding/json"
 	"fmt"
 	"net"
+	"strings"
 
 	tq "github.com/facebookincubator/tacquito"
 	"github.com/facebookincubator/tacquito/cmds/server/config"
@@ -25,7 +26,7 @@ func init() {
 					"accounters with unregistered type or nil options, empty and blank command/service names, invalid regular expressions, a scope whose shared secret is empty. Prefix histories: every history of depth <= 2 over 10 state-reaching packets " +
 					"(fresh, GETUSER pending, GETPASS pending, after PAP, authorization, accounting). Last packet: each of ~40 packet kinds (every user shape x login kinds, authorization and accounting of the odd users) unmutated, and for 14 representative kinds " +
 					"every truncation, every single-octet corruption of every body offset (values 0, 0xff, orig+1), every header-octet corruption (0, 0xff, orig+1), length field lying by -1/+1/+100 and 65536/65537/2^32-1, zero-length and 65536-byte bodies; " +
-					"raw stream junk: every string of length <= 6 over {0,1,0xff}; a temporary (non-timeout) accept failure between the hostile client and the next one. Thorough adds proxy=true with well-formed and malformed PROXY lines. Oracle: the worker process survives; a control connection opened before the hostile one " +
+					"raw stream junk: every string of length <= 6 over {0,1,0xff}; a temporary (non-timeout) accept failure between the hostile client and the next one. A client that sends one packet of every kind and then stops reading (the server's reply to it blocks in Write) while the control clients also send an accounting record and log in. Thorough adds proxy=true with well-formed and malformed PROXY lines. Oracle: the worker process survives; a control connection opened before the hostile one " +
 					"and one opened after it both complete a command authorization with PASS. states = distinct loop-model states reached; transitions = packets delivered",
 				Assumptions: []string{"a Go panic in any goroutine terminates the worker; the parent attributes it to the case written ahead"}}
 		},
@@ -46,6 +47,43 @@ type c14Case struct {
 	// clients) before the next client connects
 	AcceptFault bool   `json:"accept_fault,omitempty"`
 	PLine       string `json:"proxy_line,omitempty"`
+	// Stalled: the hostile client sends Last and then stops reading, so that the server's reply to it blocks in Write;
+	// the other clients - which also send an accounting record and log in - must be served meanwhile
+	Stalled bool `json:"stalled_reader,omitempty"`
+}
+
+// controlMore: an accounting record and a PAP login on a control connection (what another client may be doing while a
+// hostile one holds the server up).
+func (rw *rworld) controlMore(e *rEnv, rc *rConn, sid uint32) string {
+	m := ref.NewMsg()
+	m.N["flags"], m.N["authen_method"], m.N["priv_lvl"], m.N["authen_type"], m.N["authen_service"] = 2, 6, 1, 1, 1
+	m.S["user"], m.S["port"], m.S["rem_addr"] = []byte("own"), []byte("tty9"), []byte("10.9.9.9")
+	m.Args = [][]byte{[]byte("task_id=9")}
+	body, _ := ref.AcctRequest.Encode(m)
+	closed, err := rw.W.Deliver(rc.C, ref.Packet(ref.Header{Version: 0xc0, Type: 3, Seq: 1, Session: sid}, rc.Key, body))
+	if err != nil {
+		return "control connection hung on an accounting record: " + err.Error()
+	}
+	pk, rest := srvx.ParseStream(rc.C.Take())
+	if closed || len(pk) != 1 || len(rest) != 0 {
+		return fmt.Sprintf("control connection (accounting): closed=%v packets=%d", closed, len(pk))
+	}
+	if rm, cl := ref.AcctReply.Decode(ref.Obfuscate(pk[0].H, rc.Key, pk[0].Body)); cl != ref.Exact || rm.N["status"] != 1 {
+		return "control connection: accounting record not answered SUCCESS"
+	}
+	typ, minor, pb := rPkt{Kind: "pap", User: "own", Pw: e.Sec.Own}.body()
+	closed, err = rw.W.Deliver(rc.C, ref.Packet(ref.Header{Version: 0xc0 | minor, Type: typ, Seq: 1, Session: sid + 1}, rc.Key, pb))
+	if err != nil {
+		return "control connection hung on a login: " + err.Error()
+	}
+	pk, rest = srvx.ParseStream(rc.C.Take())
+	if closed || len(pk) != 1 || len(rest) != 0 {
+		return fmt.Sprintf("control connection (login): closed=%v packets=%d", closed, len(pk))
+	}
+	if rm, cl := ref.AuthenReply.Decode(ref.Obfuscate(pk[0].H, rc.Key, pk[0].Body)); cl != ref.Exact || rm.N["status"] != 1 {
+		return "control connection: login not answered PASS"
+	}
+	return ""
 }
 
 func c14Env(kc string) *rEnv {
@@ -148,7 +186,18 @@ func c14One(c *Ctx, rw *rworld, e *rEnv, cs c14Case, ctr *uint32) {
 		}
 		c.R.Trans(1)
 	}
-	if !rc.C.Closed() {
+	if cs.Stalled && cs.Last != nil && !rc.C.Closed() {
+		// the hostile client sends its packet and stops reading
+		rc.C.StallWrites()
+		defer rc.C.ReleaseWrites()
+		typ, minor, body := cs.Last.body()
+		seq := rc.chooseSeq(sidOf(cs.Last.Sid), cs.Last.SeqMode)
+		rc.C.Feed(ref.Packet(ref.Header{Version: 0xc0 | minor, Type: typ, Seq: byte(seq), Session: sidOf(cs.Last.Sid)}, rc.Key, body))
+		if _, ok := rc.C.WaitSettled(srvx.HangTimeout); !ok {
+			c.Abort("hang", fmt.Sprintf("the server neither answered nor went idle in %+v", cs), cs)
+		}
+		c.R.Trans(1)
+	} else if !rc.C.Closed() {
 		feedProxy()
 		if cs.Last != nil {
 			if _, err := rw.deliverR(rc, len(cs.Prefix), *cs.Last); err != nil {
@@ -176,6 +225,15 @@ func c14One(c *Ctx, rw *rworld, e *rEnv, cs c14Case, ctr *uint32) {
 	if m := rw.control(e, before, 0xc0000000+*ctr); m != "" {
 		fail("before: " + m)
 	}
+	if cs.Stalled {
+		if m := rw.controlMore(e, before, 0xc2000000+2**ctr); m != "" {
+			if strings.Contains(m, "hung") {
+				// waiting out every further step would outlast the worker's budget: report and stop this worker now
+				c.Abort("disturbed/stalled-client-blocks-others", "while a client that does not read its reply is connected: "+m, cs)
+			}
+			fail("before: " + m)
+		}
+	}
 	if cs.AcceptFault {
 		rw.W.L.PushErr(&net.OpError{Op: "accept", Net: "sim", Err: tempErr{}})
 		rw.W.L.PushErr(&net.OpError{Op: "accept", Net: "sim", Err: tempErr{}})
@@ -193,6 +251,18 @@ func c14One(c *Ctx, rw *rworld, e *rEnv, cs c14Case, ctr *uint32) {
 	}
 	if m := rw.control(e, after, 0xc1000000+*ctr); m != "" {
 		fail("after: " + m)
+	}
+	if cs.Stalled {
+		if m := rw.controlMore(e, after, 0xc3000000+2**ctr); m != "" {
+			if strings.Contains(m, "hung") {
+				c.Abort("disturbed/stalled-client-blocks-others", "while a client that does not read its reply is connected: "+m, cs)
+			}
+			fail("after: " + m)
+		}
+		rc.C.ReleaseWrites()
+		if _, ok := rc.C.WaitIdleTimeout(srvx.HangTimeout); !ok {
+			c.Abort("hang", fmt.Sprintf("the stalled connection did not become idle after the client resumed reading in %+v", cs), cs)
+		}
 	}
 	for _, x := range []*rConn{before, rc, after} {
 		if !x.C.Closed() {
@@ -281,6 +351,15 @@ func c14Run(c *Ctx) {
 		}
 		kinds := c14Kinds(e)
 		prefixes := c14Prefixes(e)
+		// (0) a client that sends one packet of every kind and then stops reading its replies
+		for ki := range kinds {
+			job++
+			if !c.Mine(job) {
+				continue
+			}
+			k := kinds[ki]
+			c14One(c, rw, e, c14Case{Cfg: mode, Last: &k, Scope: "s1", Stalled: true}, &ctr)
+		}
 		// (1) every prefix x every kind, unmutated, on both hostile scopes
 		for _, pre := range prefixes {
 			job++
